@@ -199,7 +199,7 @@ e1check.run(dict(
     # the same directed schedule is a regression test (aba_regression)
     findings=([] if REPAIRED else [dict(id='aba-link', case=ABA_CASE, signature='(duplicate)')]),
     extra_check=extras,
-    props=['C17', 'C17Fifo', 'C17Index', 'C17Solo'],
+    props=['C17', 'C17Fifo', 'C17Index', 'C17Solo', 'C17IndexSolo'],
     quick=3000, thorough=250000, extra=20000, libs='-latomic',
     rule='random programs (1-4 threads, 1-5 ops each over push_left/right, pop_left/right on one deque, or push(v,other_end)/pop(v,steal) on a lifo/abp_fifo/abp_lifo/fifo back-end), freelist pre-allocation 1-8 nodes, PRNG schedules (uniform / priority / sticky) over the hook points before every anchor load/compare/CAS, link load/store/CAS, alloc and free; the container is drained at the end and compared with the model chain; non-trivial = an anchor CAS failed or a stabilisation link CAS ran; distinct = distinct (program, schedule seed) text',
     assumptions=['the contiguous index queue clauses of C17 are covered by Props/C17Index.lean, audited here, and by an E1 sub-check of the real contiguous_index_queue.hpp against the acceptor `iq` (the same tie also runs in C11)',
